@@ -56,8 +56,6 @@ Proof.
   fold (isort l). rewrite ins_in, IH. intuition.
 Qed.
 
-Definition rle (a b : result) : Prop := snd a <= snd b.
-
 Lemma ins_sorted_ok x l : StronglySorted rle l -> StronglySorted rle (ins_sorted x l).
 Proof.
   induction l as [|z l IH]; intro H; cbn [ins_sorted].
@@ -74,28 +72,6 @@ Qed.
 Lemma isort_sorted l : StronglySorted rle (isort l).
 Proof.
   induction l as [|z l IH]; cbn [isort fold_right]; [constructor|]. apply ins_sorted_ok. exact IH.
-Qed.
-
-Lemma sorted_split k : forall l, StronglySorted rle l ->
-  forall a b, In a (firstn k l) -> In b (skipn k l) -> snd a <= snd b.
-Proof.
-  induction k as [|k IH]; intros l H a b Ha Hb; [inversion Ha|].
-  destruct l as [|z l]; [inversion Ha|]. cbn [firstn skipn] in *.
-  inversion H as [|? ? Hs Hf]; subst. destruct Ha as [Ha|Ha].
-  - subst a. rewrite Forall_forall in Hf. apply Hf.
-    rewrite <- (firstn_skipn k l). apply in_or_app. right. exact Hb.
-  - apply (IH l Hs a b Ha Hb).
-Qed.
-
-Lemma worst_bound (l : list result) (d : Q) :
-  l <> [] -> (forall a, In a l -> snd a <= d) -> exists w, worst l = Some w /\ w <= d.
-Proof.
-  induction l as [|[i x] l IH]; intros Hne H; [congruence|]. cbn [worst].
-  destruct l as [|y l'].
-  - cbn [worst]. exists x. split; [reflexivity|]. apply (H (i, x)). left. reflexivity.
-  - destruct IH as [w [Ew Hw]]; [discriminate|intros a Ha; apply H; right; exact Ha|].
-    rewrite Ew. exists (Qmax x w). split; [reflexivity|].
-    apply Q.max_lub; [apply (H (i, x)); left; reflexivity|exact Hw].
 Qed.
 
 Lemma ip_knn_live c q k id d :
@@ -130,3 +106,9 @@ Proof.
   - intros a Ha. apply (sorted_split k L (isort_sorted _) a (id, 1 - dot q v) Ha Hskip).
   - exists w. split; [exact Ew|]. unfold dist_lt. apply Qltb_false. lra.
 Qed.
+
+Lemma ip_knn_sorted c q k : StronglySorted rle (ip_knn c q k).
+Proof. unfold ip_knn. apply sorted_firstn. apply isort_sorted. Qed.
+
+Lemma ip_isd_lt q v d w : ip_isd q v d -> w <= d -> dist_lt InnerProduct q v w = false.
+Proof. unfold ip_isd, dist_lt. intros E H. subst d. apply Qltb_false. lra. Qed.
